@@ -34,6 +34,7 @@ THEOREMS = [P + n for n in [
     "rewrite_between_sound", "simplify_not_sound", "conn_const_sound", "conn_const_exact", "bin_pair_sound",
     "simplify_neg_neg_sound", "simplify_equality_sound", "simplify_parens_sound", "flatten_sound",
     "simplify_conditionals_if_sound", "simplify_conditionals_sound", "simplify_conditionals_needs_first_branch",
+    "simplify_conditionals_keeps_grouping",
     "simplify_coalesce_head_sound", "simplify_coalesce_cmp_sound", "simplify_coalesce_needs_nonnull_constant",
     "simplify_comparison_bounds_sound", "simplify_comparison_tie_needed",
     "simplify_comparison_nonnull_sound", "simplify_comparison_where_sound", "simplify_comparison_false_nonnull",
@@ -44,7 +45,7 @@ THEOREMS = [P + n for n in [
     "checkStep_sound", "checkStep_exact", "nonnull_needed", "nonnull_needed_absorb",
     "simplify_comparison_and_false_counterexample", "normalize_result", "while_changing_sound",
 ]] + ["SqlglotModel.Simplify.ttCheck_sound", "SqlglotModel.Simplify.checkAll_sound",
-                   "SqlglotModel.Simplify.caseLoop_sound", "SqlglotModel.Simplify.evalCoalesce_split",
+                   "SqlglotModel.Simplify.caseLoop_sound", "SqlglotModel.Simplify.evalCoalesce_split", "SqlglotModel.Simplify.eval_wrapForParent",
                    "SqlglotModel.Simplify.splitAtConst_ends", "SqlglotModel.Simplify.endsCoalesce_ne_null",
                    "SqlglotModel.Simplify.flatSimplify_sound", "SqlglotModel.Simplify.flatLoop_sound", "SqlglotModel.Simplify.tryPair_sound",
                    "SqlglotModel.Simplify.distLaw_all", "SqlglotModel.Simplify.distTop_sound", "SqlglotModel.Simplify.distribute_sound",
@@ -206,6 +207,11 @@ def translate(chk: Check) -> str:
         "non_binaries": not any(issubclass(c, exp.Binary) for c in (exp.Not, exp.Paren, exp.Neg, exp.Coalesce, exp.Case, exp.If, exp.Column, exp.Between, exp.In, exp.Literal, exp.Null, exp.Boolean)),
         "connectors": issubclass(exp.And, exp.Connector) and issubclass(exp.Or, exp.Connector) and not any(issubclass(c, exp.Connector) for c in classes + [exp.Is, exp.Add, exp.Sub, exp.Mul]),
         "conditions": all(issubclass(c, (exp.Condition, exp.Binary)) for c in classes + [exp.Is, exp.Between, exp.In, exp.And, exp.Or, exp.Not, exp.Paren, exp.Add, exp.Sub, exp.Mul, exp.Neg, exp.Coalesce, exp.Case, exp.If]),
+        # what _parenthesize_for_parent (wrapForParent in the model) tests
+        "unaries": all(issubclass(c, exp.Unary) for c in (exp.Not, exp.Neg, exp.Paren))
+        and not any(issubclass(c, exp.Unary) for c in classes + [exp.Is, exp.And, exp.Or, exp.Add, exp.Sub, exp.Mul, exp.Between, exp.In,
+                                                            exp.Coalesce, exp.Case, exp.If, exp.Column, exp.Literal, exp.Null, exp.Boolean]),
+        "wrap_helper": hasattr(S, "_parenthesize_for_parent"),
         "comparisons": set(Sx.COMPARISONS) == set(classes + [exp.Is]),
         "lt_lte": tuple(Sx.LT_LTE) == (exp.LT, exp.LTE) and tuple(Sx.GT_GTE) == (exp.GT, exp.GTE),
         "constants": set(exp.CONSTANTS) == {exp.Literal, exp.Boolean, exp.Null} and set(exp.NONNULL_CONSTANTS) == {exp.Literal, exp.Boolean},
@@ -476,6 +482,69 @@ TERMS = ["i0 * i1", "i0 + i1", "i0 - i1", "i0 * i0", "i1 * 2 + i0", "-i0 * i1"]
 KEXPRS = ["5 - 3 - 1", "(2 + 3) - 1 - 1", "1 + 2 * 3 - 5", "2 * (3 - 1) - 1", "7 - (2 + 3) - 1", "- -(3 - 1)", "8 - 2 - 2 - 2", "(5 - 3 - 1) * 2"]
 
 
+# constants in every shape the folding helpers (_is_constant, is_number, is_null, always_true / always_false ...) look at:
+# NULL wherever a number can stand, under unary minus, inside arithmetic, nested 1-3 deep
+CONST_ATOMS = ["NULL", "0", "1", "2", "5", "TRUE", "FALSE"]
+CONST_SWEEP = ["NULL", "-NULL", "- -NULL", "(-NULL)", "-(-(-NULL))", "0", "-0", "1", "-1", "-(-1)", "(2)", "TRUE", "FALSE", "-TRUE",
+               "NULL + 1", "1 - NULL", "-NULL + 1", "2 * NULL", "-(NULL * 2)", "1 + 1", "2 - 5", "-(2 - 5)", "NULL - NULL", "-(1 + NULL)",
+               "COALESCE(NULL, -NULL)", "COALESCE(-NULL, 1)", "CASE WHEN NULL THEN 1 ELSE -NULL END"]
+CONST_CONTEXTS = ["{K} IS NULL", "{K} IS NOT NULL", "NOT {K} IS NULL", "({K}) IS NULL", "{K} = 1", "1 < {K}", "{K} <> {K2}", "{K} >= i0",
+                  "i0 > 1 AND {K} IS NULL", "i0 > 1 OR {K} IS NOT NULL", "b0 AND {K}", "{K} OR b0", "NOT {K}", "NOT NOT {K}",
+                  "CASE WHEN {K} IS NULL THEN i0 ELSE 0 END", "CASE WHEN {K} THEN i0 ELSE 0 END", "CASE {K} WHEN 1 THEN i0 ELSE 0 END",
+                  "IF({K}, 1, 2)", "COALESCE({K}, i0)", "COALESCE(i0, {K}, 3)", "COALESCE({K}, {K2}) = 1", "COALESCE(i0, {K}) = 1",
+                  "i0 IN ({K}, 1)", "{K} IN (1, i0)", "{K} IN ({K2})", "i0 + {K}", "{K} - i0", "{K} * i0 + 1", "-({K})", "i0 + {K} = 3",
+                  "{K} - i0 < 2", "{K} BETWEEN 0 AND 2", "i0 BETWEEN {K} AND 2", "i0 = {K} AND i0 < 3"]
+
+
+def gen_const(rng, depth):
+    if depth <= 0 or rng.random() < 0.35:
+        return rng.choice(CONST_ATOMS)
+    k = rng.random()
+    a = lambda: gen_const(rng, depth - 1)  # noqa
+    if k < 0.35:
+        return f"-{atom(a())}" if rng.random() < 0.7 else f"-({a()})"
+    if k < 0.75:
+        return f"{atom(a())} {rng.choice(['+', '-', '*'])} {atom(a())}"
+    if k < 0.82:
+        return f"({a()})"
+    if k < 0.92:
+        return f"COALESCE({a()}, {a()})"
+    return f"CASE WHEN {a()} THEN {a()} ELSE {a()} END"
+
+
+def branch_template(rng):
+    """a CASE / IF / COALESCE whose condition folds, with a compound branch, under a parent that binds tighter"""
+    br = rng.choice(["i0 + i1", "i0 - 1", "b0 OR b1", "b0 AND b1", "i0 < i1", "i0 = 1", "NOT b0", "-i0", "i0 IN (1, 2)", "i0 * 2"])
+    other = rng.choice(["0", "i1", "b2", "NULL"])
+    cond_t, cond_f = rng.choice(["TRUE", "1", "1 < 2", "(TRUE)"]), rng.choice(["FALSE", "NULL", "0", "1 > 2", "(0)"])
+    fn = rng.choice([f"CASE WHEN {cond_t} THEN {br} ELSE {other} END", f"CASE WHEN {cond_f} THEN {other} ELSE {br} END",
+                     f"IF({cond_t}, {br}, {other})", f"IF({cond_f}, {other}, {br})", f"COALESCE({br})",
+                     f"CASE WHEN {cond_f} THEN {other} WHEN {cond_t} THEN {br} END"])
+    ctx = rng.choice(["{F} * 2", "2 - {F}", "-{F}", "{F} AND b2", "NOT {F}", "{F} = b2", "{F} IN (b2, TRUE)", "{F} + 1 < 3", "{F} IS NULL",
+                      "b2 OR {F} AND b1", "({F}) * i0 + 1", "{F} BETWEEN 0 AND 2", "{F} < i1"])
+    return ctx.replace("{F}", fn)
+
+
+def const_template(rng):
+    ctx = rng.choice(CONST_CONTEXTS)
+    k1 = gen_const(rng, rng.choice([1, 2, 3])) if rng.random() < 0.6 else rng.choice(CONST_SWEEP)
+    k2 = gen_const(rng, rng.choice([1, 2])) if rng.random() < 0.6 else rng.choice(CONST_SWEEP)
+    return ctx.replace("{K2}", atom(k2)).replace("{K}", atom(k1))
+
+
+def const_cases(with_index=False):
+    for ci, ctx in enumerate(CONST_CONTEXTS):
+        for i, k in enumerate(CONST_SWEEP):
+            q = ctx.replace("{K2}", atom(CONST_SWEEP[(i * 7 + 3) % len(CONST_SWEEP)])).replace("{K}", atom(k))
+            yield (ci, i, q) if with_index else q
+
+
+def _const_cases_old():
+    for ctx in CONST_CONTEXTS:
+        for i, k in enumerate(CONST_SWEEP):
+            yield ctx.replace("{K2}", atom(CONST_SWEEP[(i * 7 + 3) % len(CONST_SWEEP)])).replace("{K}", atom(k))
+
+
 def compound_term(rng, cols):
     t = rng.choice(TERMS)
     if "n0" in cols["i"] and rng.random() < 0.3:
@@ -519,7 +588,9 @@ def gen_int(rng, d, cols):
         r2 = rng.random()
         if r2 < 0.5:
             return rng.choice(cols["i"])
-        return lit(rng) if r2 < 0.95 else "NULL"
+        if r2 < 0.90:
+            return lit(rng)
+        return rng.choice(["NULL", "NULL", "-NULL", "-" + lit(rng), "(-NULL)"])
     k = rng.random()
     a = lambda: gen_int(rng, d - 1, cols)  # noqa
     if k < 0.30:
@@ -662,9 +733,13 @@ def paren_template(rng):
 def gen_sql(rng, nonnull=False):
     cols = {"b": BCOLS + (NB * 3 if nonnull else []), "i": ICOLS + (NI * 2 if nonnull else [])}
     r = rng.random()
+    if r < 0.05:
+        return branch_template(rng)
     if r < 0.12:
+        return const_template(rng)
+    if r < 0.20:
         return paren_template(rng)
-    if r < 0.30:
+    if r < 0.36:
         return multipass_template(rng, cols)
     if r < 0.50:
         return templates(rng, cols)
@@ -880,8 +955,19 @@ class Observer:
             before = expression.copy(); ctx = obs._ctx(expression, args)
             out = orig(self_, expression, *args, **kwargs)
             obs.log.append((name, ctx, before, out.copy() if isinstance(out, exp.Expr) else out))
+            obs._step_text(name, expression, before, out)
             return out
         setattr(cls, name, w)
+
+    def _step_text(self, name, expression, before, out):
+        """context for attributing a text-level (print + parse) difference to the rule that put a node under its parent"""
+        exp, _, _ = sg()
+        if out is expression or not isinstance(out, exp.Expr) or expression.parent is None or before == out:
+            return
+        try:
+            self.log.append(("step_text", {"rule": name, "pk": pk_of(expression.parent), "ck": pk_of(out)}) + parent_context(expression, before, out))
+        except Exception:
+            pass
 
     def _wrap_global(self, mod, name, label=None):
         exp, _, _ = sg()
@@ -895,6 +981,8 @@ class Observer:
             before = expression.copy(); ctx = obs._ctx(expression, args)
             out = orig(expression, *args, **kwargs)
             obs.log.append((label or name, ctx, before, out.copy() if isinstance(out, exp.Expr) else out))
+            if name != "simplify_parens":
+                obs._step_text(label or name, expression, before, out)
             if name == "simplify_parens" and out is not expression and isinstance(out, exp.Expr) and expression.parent is not None:
                 try:
                     obs.log.append(("parens_text", {"pk": pk_of(expression.parent), "ck": pk_of(out)}) + parent_context(expression, before, out))
@@ -1075,7 +1163,7 @@ def step_pairs(log):
             if name == "_simplify_binary" and cls is exp.Sub and not ctx["sp"]:
                 continue
             yield name, ctx, be, after
-        elif rule in ("flat", "parens_text"):
+        elif rule in ("flat", "parens_text", "step_text"):
             continue
         elif isinstance(after, exp.Expr) and before != after:
             yield rule, ctx, before, after
@@ -1193,6 +1281,21 @@ def check_input(chk: Check, sql, variant, api, dialect, report=True):
             r = text_differs(e, out, td)
             chk.count(f"text:e2e:{'ok' if r is None else r[0]}")
             if r is not None and r[0] in ("differs", "unparsable") and not text_viols:
+                culprit = None
+                for rule2, ctx2, pb2, pa2 in log:  # the first rule step whose own parent context is not text-stable
+                    if rule2 == "step_text":
+                        r2 = text_differs(pb2, pa2, td)
+                        if r2 is not None and r2[0] in ("differs", "unparsable"):
+                            culprit = (ctx2, pb2, pa2, r2)
+                            break
+                if culprit is not None:
+                    ctx2, pb2, pa2, r2 = culprit
+                    text_viols.append({"key": f"{ctx2['rule']}:text:{ctx2['pk']}({ctx2['ck']})", "rule": ctx2["rule"], "kind": "text-" + r2[0],
+                                       "what": f"step {ctx2['rule']} puts `{pa2.sql(dialect=td)}` where `{pb2.sql(dialect=td)}` was: {r2[1]} (dialect {td}); "
+                                               f"end to end {api}: `{e.sql()}` -> `{out.sql(dialect=td)}`",
+                                       "replay": {"sql": sql, "variant": variant, "api": api, "dialect": dialect, "rule": ctx2["rule"],
+                                                  "before": pb2.sql(dialect=td), "after": pa2.sql(dialect=td), "text_dialect": td}, "size": len(pb2.sql())})
+                    break
                 text_viols.append({"key": f"{api}:text:{skeleton(e)}=>{skeleton(out)}", "rule": api, "kind": "text-" + r[0],
                                    "what": f"{api}: `{e.sql()}` -> `{out.sql(dialect=td)}` {r[1]} (dialect {td}); the returned tree itself evaluates like the input",
                                    "replay": {"sql": sql, "variant": variant, "api": api, "dialect": dialect, "text_dialect": td}, "size": 10 ** 6})
@@ -1255,9 +1358,13 @@ def model_request(rule, ctx, before, after):
     if rule == "simplify_equality":
         return {"op": rule, "e": to_json(before)}, to_json(after)
     if rule == "simplify_conditionals":
-        return {"op": rule, "pcase": p == "case", "e": to_json(before)}, to_json(after)
+        if p.startswith("other"):
+            return None
+        return {"op": rule, "p": p, "e": to_json(before)}, to_json(after)
     if rule == "simplify_coalesce":
-        return {"op": rule, "cns": ctx["cns"], "e": to_json(before)}, to_json(after)
+        if p.startswith("other"):
+            return None
+        return {"op": rule, "cns": ctx["cns"], "p": p, "e": to_json(before)}, to_json(after)
     if rule == "simplify_parens":
         if p.startswith("other"):
             return None
@@ -1296,7 +1403,7 @@ def correspond(chk: Check, logs, e2e_norm):
     lines, expect, what = [], [], []
     seen = set()
     for rule, ctx, before, after in logs:
-        if rule == "parens_text":
+        if rule in ("parens_text", "step_text"):
             continue
         try:
             r = model_request(rule, ctx, before, after)
@@ -1413,6 +1520,52 @@ def canon(j):
             return uniq[0]
         return [t] + sorted(uniq, key=lambda x: json.dumps(x))
     return [t] + [canon(x) if isinstance(x, list) else x for x in j[1:]]
+
+
+def validate_helpers(chk: Check, sqls):
+    """the helper predicates the rules trust (_is_constant, is_number, is_null, is_zero, is_false, always_true,
+    always_false, _is_nonnull_constant) on every sub-expression of the generated inputs: real code vs the model"""
+    import sqlglot
+    exp, S, _ = sg()
+    seen, lines, expect = set(), [], []
+    for sql in sqls:
+        try:
+            e = sqlglot.parse_one(sql)
+        except Exception:
+            continue
+        for n in e.walk():
+            if not isinstance(n, exp.Expr):
+                continue
+            try:
+                j = to_json(n)
+            except NotInFragment:
+                continue
+            key = json.dumps(j)
+            if key in seen:
+                continue
+            seen.add(key)
+            real = [bool(S._is_constant(n)), bool(n.is_number), bool(S.is_null(n)), bool(S.is_zero(n)), bool(S.is_false(n)),
+                    bool(S.always_true(n)), bool(S.always_false(n)), bool(S._is_nonnull_constant(n))]
+            if n.is_number:
+                try:
+                    real.append(int(n.to_py()))
+                except Exception:
+                    real.append(None)
+            else:
+                real.append(None)
+            lines.append(json.dumps({"op": "helpers", "e": j}))
+            expect.append((n.sql(), real))
+    if not lines:
+        return
+    got = chk.driver("C06", lines)
+    chk.corr_cases += len(lines)
+    names = ["_is_constant", "is_number", "is_null", "is_zero", "is_false", "always_true", "always_false", "_is_nonnull_constant", "to_py"]
+    for g, (text, real) in zip(got, expect):
+        m = json.loads(g)
+        if m != real:
+            bad = [nm for nm, x, y in zip(names, m, real) if x != y]
+            chk.correspondence_broken("helper predicate(s) " + ", ".join(bad), {"e": text, "model": dict(zip(names, m)), "impl": dict(zip(names, real))})
+    chk.cov["helper_validation"] = {"distinct_subexpressions": len(lines)}
 
 
 def pkind_of(n):
@@ -1543,6 +1696,9 @@ CORPUS = [
     ("(b0 AND b1) OR (b2 AND i0 > 1)", "untyped", "cnf"), ("(b0 OR b1) AND (b2 OR i0 BETWEEN 1 AND 3)", "untyped", "dnf"),
     ("5 - 3 - 1 < i0 * i1 AND i0 * i1 < 7", "untyped", "simplify"), ("NOT (i0 + i1 + 1 <= 3) AND i0 + i1 < 9", "untyped", "simplify"),
     ("i0 = 2 + 3 AND i0 < i1 AND i1 < 7", "untyped", "simplify_cp"),
+    ("IF(TRUE, b0 OR b1, b2) AND b2", "untyped", "simplify"), ("CASE WHEN FALSE THEN 1 ELSE i0 + i1 END * 2", "untyped", "simplify"),
+    ("-CASE WHEN TRUE THEN i0 + i1 END", "untyped", "simplify"), ("COALESCE(i0 + i1) * 2", "untyped", "simplify_co"),
+    ("-NULL IS NULL", "untyped", "simplify"), ("i0 > 1 AND -NULL IS NULL", "untyped", "simplify"),
     ("i0 - 5 - 3 > 1", "untyped", "simplify"), ("5 - i0 < 2", "untyped", "simplify"), ("b0 AND TRUE", "untyped", "simplify"),
 ]
 
@@ -1583,7 +1739,7 @@ def run(chk: Check) -> None:
     dlist = list(dialects.values())
     rng = chk.rng
     t0 = time.time()
-    budget = chk.pick(40, 480)
+    budget = chk.pick(36, 480)
     if chk.broken:
         budget *= 2
     all_logs, e2e_norm, sqls = [], [], []
@@ -1633,6 +1789,12 @@ def run(chk: Check) -> None:
         for o2 in RANGE:
             one(f"i0 = 2 + 3 AND i0 {o1} i1 AND i1 {o2} 7", "untyped", "simplify_cp", dlist[0])
             one(f"i0 = 5 - 3 - 1 AND i0 {o1} i0 * i1 AND i0 * i1 {o2} 7", "untyped", "simplify_cp", dlist[0])
+    # constant sweep: every constant shape (NULL under unary minus / inside arithmetic ...) in every folding context
+    for ci, ki, q in const_cases(with_index=True):
+        # quick: the NULL-under-unary-minus shapes in the IS [NOT] NULL contexts always, the rest sampled; thorough: all
+        if chk.quick and not (ci < 4 and ki < 5) and rng.random() > 0.3:
+            continue
+        one(q, "untyped", rng.choice(["simplify", "simplify", "simplify_co"]), dlist[0])
     # Paren-removal sweep: every parent kind x child kind (sampled in quick; the IN / BETWEEN / arithmetic parents always)
     for q in paren_cases():
         if chk.quick and rng.random() > 0.45:
@@ -1640,7 +1802,7 @@ def run(chk: Check) -> None:
         one(q, "untyped", "simplify", dlist[0])
     chk.cov["sweep_s"] = round(time.time() - t0, 1)
     t_rand = time.time()
-    while time.time() - t_rand < budget * 0.45 and len(chk.violations) < 6:
+    while time.time() - t_rand < budget * 0.33 and len(chk.violations) < 6:
         variant = rng.choice(["untyped", "typed", "nonnull"])
         sql = gen_sql(rng, nonnull=variant == "nonnull")
         sqls.append(sql)
@@ -1665,6 +1827,7 @@ def run(chk: Check) -> None:
     try:
         evaluator_differential(chk, sqls[: chk.pick(300, 3000)])
         validate_reparse_table(chk)
+        validate_helpers(chk, list(const_cases()) + sqls[: chk.pick(400, 4000)])
         hints = correspond(chk, all_logs, e2e_norm)
     except HarnessError as ex:
         if proved and "driver" not in str(ex):
@@ -1682,6 +1845,7 @@ def run(chk: Check) -> None:
         for api in APIS:
             check_input(chk, sql, variant, api, d)
             n_inputs += 1
+    chk.cov["phase_s"] = {"after_search_loop": round(t1 - t0, 1), "total": round(time.time() - t0, 1)}
     chk.search_info = {"ran": True, "budget_s": round(time.time() - t0, 1), "inputs": n_inputs, "violating": len(chk.violations),
                        "known_hits": len(chk.known_hits),
                        "oracle": "before/after of simplify, normalize(dnf=False/True) and of every observed rule step evaluated under all "
